@@ -787,6 +787,33 @@ func c17Stringified(c dom.Container) map[string]string {
 	return out
 }
 
+// c17FlattenLossless: no empty container or list below the root (Flatten forgets those).
+func c17FlattenLossless(w W, root bool) bool {
+	switch x := w.(type) {
+	case []any:
+		if len(x) == 0 {
+			return false
+		}
+		for _, e := range x {
+			if !c17FlattenLossless(e, false) {
+				return false
+			}
+		}
+	case map[string]any:
+		if m, ok := x["m"].(map[string]any); ok {
+			if len(m) == 0 && !root {
+				return false
+			}
+			for _, e := range m {
+				if !c17FlattenLossless(e, false) {
+					return false
+				}
+			}
+		}
+	}
+	return true
+}
+
 func c17EvalEmbedded(c *Ctx, raw []byte) {
 	var cs c17Emb
 	if err := json.Unmarshal(raw, &cs); err != nil {
@@ -902,8 +929,15 @@ func c17EvalEmbedded(c *Ctx, raw []byte) {
 		b2, _ := os.ReadFile(file)
 		file2, _ = c17Decode(b2)
 		if cs.Mode == "props" {
-			c.Direct("reopened-properties==edited-document(flattened,%v)", canon(c17Stringified(d2.Document())) == canon(editedFlat),
-				map[string]any{"reopened": c17Stringified(d2.Document()), "edited": editedFlat})
+			// a properties file holds leaves only: a document with an empty container / list somewhere is
+			// not representable (its flattening forgets it), so the equality is asked of the others
+			if c17FlattenLossless(editedW, true) {
+				c.Dist("props:representable")
+				c.Direct("reopened-properties==edited-document(flattened,%v)", canon(c17Stringified(d2.Document())) == canon(editedFlat),
+					map[string]any{"reopened": c17Stringified(d2.Document()), "edited": editedFlat})
+			} else {
+				c.Dist("props:has-empty-composite")
+			}
 		}
 	})
 	if !c.Direct("no-panic(edit-save-reopen)", out == "ok", txt) {
